@@ -307,22 +307,24 @@ def _hmain(place, name):
 hmain = task(name="hmain", namespace=NS, version="1", cache=False)(_hmain)
 
 
-def handle_case(place, versions):
-    """versions: e.g. ['v1', 'v2', 'v1'] - the code version of the handle-advancing task in successive executions."""
+def handle_case(place, versions, nocache=None):
+    """versions: e.g. ['v1', 'v2', 'v1'] - the code version of the handle-advancing task in successive executions;
+    nocache: per execution, whether it runs with run(cache=False) (the task then always executes)."""
+    nocache = list(nocache or [False] * len(versions))
     _SALT[0] += 1
     name = "conn_%d_%d" % (os.getpid(), _SALT[0])
     s = _sched()
     last = None
     trace = []
-    for v in versions:
+    for v, nc in zip(versions, nocache):
         _HT["update"] = _define_update(v)
-        trace.append(v)
+        trace.append(v + ("(cache=False)" if nc else ""))
         del _HCALLS[:]
         try:
-            out = s.run(hmain(place, name))
+            out = s.run(hmain(place, name), **({"cache": False} if nc else {}))
         except Exception as e:
             return False, "handle passed %s, versions %r: raised %s: %s" % (place, trace, type(e).__name__, e)
-        want = [] if v == last else [v]
+        want = [] if (v == last and not nc) else [v]
         if _HCALLS != want:
             return False, ("handle passed %s, task versions run in turn %r: the last run %s, but the handle state recorded for %s is %s "
                            "(the previous execution on that incoming handle was by version %s)") % (
